@@ -87,10 +87,13 @@ class HistWorld(GWorld):
                     self._building = True
                     try:
                         deco_fi = self.prog.function("sym_metanet.util.funcs", "invalidate_cache")
-                        props = [Obj("functools:cached_property", nm, {"attrname": nm}, kind="cachedprop")
+                        # (the decorator runs in the class body, before `__set_name__`)
+                        props = [Obj("functools:cached_property", nm, {"attrname": None}, kind="cachedprop")
                                  for nm in names]
                         deco = it.call_function(FuncV(deco_fi), props, {})
                         w = it.call(deco, [RawMethod(fi)], {}, node, None)
+                        for pr in props:
+                            pr.attrs["attrname"] = pr.ident
                     finally:
                         self._building = False
                     self._wrappers[fi.qualname] = w
